@@ -29,12 +29,14 @@ THEOREMS = {
            _t("C02U", "FlooVerif.C02U.tables_deliver", "FlooVerif.C02U.next_is_closer", "FlooVerif.C02U.remaining_decreases"),
     "C03": _t("C03", "FlooVerif.C03.pack_unpack", "FlooVerif.C03.pack_lt", "FlooVerif.C03.port_fits"),
     "C04": _t("C04", "FlooVerif.C04.lockstep", "FlooVerif.C04.step_closer", "FlooVerif.C04.no_y_to_x_turn",
-              "FlooVerif.C04.column_decision", "FlooVerif.C04.allowed_y_continuation", "FlooVerif.C04.dor_reaches"),
+              "FlooVerif.C04.column_decision", "FlooVerif.C04.allowed_y_continuation", "FlooVerif.C04.dor_reaches") +
+           _t("C07XY", "FlooVerif.C07U.xy_ids_fit"),
     "C05": _t("C05", "FlooVerif.C05U.fillFree_paired", "FlooVerif.C05U.paired_same_neighbour") +
            _t("C05Full", "FlooVerif.C05U.routers_paired", "FlooVerif.C05U.router_paired", "FlooVerif.C05U.place_spec",
               "FlooVerif.C05U.place_keys", "FlooVerif.C05U.pairedGraph_of_B", "FlooVerif.C05U.onlyLinks_of_B"),
     "C06": _t("C06", "FlooVerif.C06U.zip_replicate_eq", "FlooVerif.C06U.getD_flatMap_replicate"),
-    "C07": _t("C07", "FlooVerif.C07U.id_eq_uid", "FlooVerif.C07U.idOf_eq", "FlooVerif.C07U.uids_dense", "FlooVerif.C07U.id_fits"),
+    "C07": _t("C07", "FlooVerif.C07U.id_eq_uid", "FlooVerif.C07U.idOf_eq", "FlooVerif.C07U.uids_dense", "FlooVerif.C07U.id_fits") +
+           _t("C07XY", "FlooVerif.C07U.xy_ids_fit", "FlooVerif.C07U.coord_fits", "FlooVerif.C07U.listMin_le", "FlooVerif.C07U.listMax_ge"),
     "C08": _t("C08", "FlooVerif.C08U.portElem_depth", "FlooVerif.C08U.kept_length", "FlooVerif.C08U.portElem_single"),
     "C10": _t("C10", "FlooVerif.C10.no_output_on_error", "FlooVerif.C10.rejected_of_gen_error", "FlooVerif.C10.validate_ok",
               "FlooVerif.C10.reject_invalid_range", "FlooVerif.C10.reject_empty_range", "FlooVerif.C10.reject_contradictory_range",
